@@ -60,6 +60,16 @@ def cases(tier, seed):
             e['delay'] = d2
         s['circuit']['edges'].append(['a/to/v', 'r/fo/fb', None, e])
         add(s, 'feedback')
+    # matrix (Connectivity) edges: two connections that leave one population variable with their own delays
+    from . import C16
+    T = C16.DT
+    for d1, d2 in itertools.product((2 * T, 3 * T, 2.6 * T, 5 * T), (None, 2 * T, 3 * T, 5 * T)):
+        for W in ([[0.0, 2.0], [-0.5, 0.0]], [[1.0, 0.0], [3.0, 2.0]]):
+            c2 = {'src': 'e', 'tgt': 'i', 'W': [[1.5, -0.5], [0.25, 2.0]]}
+            if d2:
+                c2['delay'] = d2
+            out.append({'pop': True, 'pops': {'e': 2, 'i': 2}, 'conns': [{'src': 'e', 'tgt': 'e', 'W': W, 'delay': d1}, c2],
+                        'tag': 'connectivity_two_delays', 'seed': seed})
     if tier != 'quick':
         for d1, d2, d3 in itertools.product(D, D, D):
             add(make(['r'], ['a', 'b', 'cc'], [edge('r', 'a', d1, 0), edge('r', 'b', d2, 1), edge('r', 'cc', d3, 2)]),
@@ -81,6 +91,9 @@ def describe(tier, seed):
 def run_case(case):
     from .. import build
     from ..refsem import solvers
+    if case.get('pop'):
+        from . import C16
+        return C16.run_case(case)
     spec = case['spec']
     res = {'evals': 0}
     nodes, edges = sp.flatten(spec)
